@@ -134,11 +134,21 @@ func goSliceDefineOwnProperty(obj *object, name string, descriptor property, thr
 			// An accessor descriptor, or a descriptor without a value.
 			return obj.runtime.typeErrorResult(throw)
 		}
-		obj.value.(*goSliceObject).setLength(value)
+		goObj := obj.value.(*goSliceObject)
+		if want, err := value.ToInteger(); !obj.extensible && err == nil && want > int64(goObj.value.Len()) {
+			// More elements, and the object may not gain properties.
+			return obj.runtime.typeErrorResult(throw)
+		}
+		goObj.setLength(value)
 		return true
 	} else if index := stringToArrayIndex(name); index >= 0 {
+		goObj := obj.value.(*goSliceObject)
+		if !obj.extensible && index >= int64(goObj.value.Len()) {
+			// A new element, and the object may not gain properties.
+			return obj.runtime.typeErrorResult(throw)
+		}
 		value, isValue := descriptor.value.(Value)
-		if isValue && obj.value.(*goSliceObject).setValue(index, value) {
+		if isValue && goObj.setValue(index, value) {
 			return true
 		}
 		return obj.runtime.typeErrorResult(throw)
